@@ -31,6 +31,25 @@ pub fn run(out: &mut Out, seed: u64, tier: &str) {
     let n_random = if tier == "thorough" { 1200 } else { 160 };
     let mut mols: Vec<Mol> = library();
     for _ in 0..n_random { let m = random_mol(&mut rng); mols.push(distort(&m, rng.range(0.02, 0.2), &mut rng)); }
+    // structures with a bond angle of 168-176 degrees next to a torsion: whether the torsion is kept (the construction drops
+    // it within 0.1 rad of linear) must not depend on how the molecule lies in the frame
+    let base: Vec<Mol> = mols.iter().take(if tier == "thorough" { 300 } else { 70 }).cloned().collect();
+    for m in base.iter() {
+        if m.n() > 14 || m.n() < 4 { continue; }
+        let mol = match catch(|| m.build()) { Some(x) => x, None => continue };
+        let ff = match FF::build("uff", &mol) { Some(f) => f, None => continue };
+        let terms = ff.terms();
+        let mut deg = vec![0usize; m.n()];
+        for t in terms.iter().filter(|t| t.kind == "bond") { deg[t.idxs[0]] += 1; deg[t.idxs[1]] += 1; }
+        let tors: Vec<&TermDesc> = terms.iter().filter(|t| t.kind == "torsion" && (deg[t.idxs[0]] == 1 || deg[t.idxs[3]] == 1)).collect();
+        if tors.is_empty() { continue; }
+        let t = tors[rng.below(tors.len())];
+        let (i, j, k) = if deg[t.idxs[0]] == 1 { (t.idxs[0], t.idxs[1], t.idxs[2]) } else { (t.idxs[3], t.idxs[2], t.idxs[1]) };
+        if let Some(mut g) = with_angle(m, i, j, k, rng.range(168.0, 176.0)) {
+            g.name = format!("{}+angle{}-{}-{}", m.name, i, j, k);
+            if g.min_distance() >= 0.6 { mols.push(g); }
+        }
+    }
     let (mut n, mut skipped, mut worst_e, mut worst_f, mut worst_t, mut worst_cov) = (0usize, 0usize, 0.0f64, 0.0f64, 0.0f64, 0.0f64);
     for m in mols.iter() {
         if m.n() > 24 || m.n() == 0 || m.min_distance() < 0.5 { continue; }
@@ -49,6 +68,17 @@ pub fn run(out: &mut Out, seed: u64, tier: &str) {
             let (mut f1, mut f2) = match (FF::build(kind, &mol), FF::build(kind, &mol2)) { (Some(a), Some(b)) => (a, b), _ => continue };
             let (e1, g1) = (f1.energy(&mol.coordinates), f1.gradient(&mol.coordinates));
             if !e1.is_finite() || !g1.iter().all(|v| v.is_finite()) || e1.abs() > 1e8 { continue; }
+            // the force field built from the moved structure must have the same terms on the same atoms (whatever the conditioning)
+            if !on_a_threshold(m) {
+                let shape = |f: &FF| { let mut v: Vec<String> = f.terms().iter().map(|t| format!("{}{:?}", t.kind, t.idxs)).collect(); v.sort(); v };
+                let (s1, s2) = (shape(&f1), shape(&f2));
+                if s1 != s2 {
+                    let only1: Vec<&String> = s1.iter().filter(|x| !s2.contains(x)).take(6).collect();
+                    let only2: Vec<&String> = s2.iter().filter(|x| !s1.contains(x)).take(6).collect();
+                    out.oracle_fail(&format!("{}: the force field built from the moved structure has different terms: only before {:?}, only after {:?}", kind, only1, only2), &replay);
+                    continue;
+                }
+            }
             if !well_conditioned(&f1.terms(), &mol.coordinates) { continue; }
             n += 1;
             // (a) the SAME force field evaluated on moved coordinates
